@@ -150,7 +150,7 @@ func runC12(p *Program, r *Result) {
 					}
 				}
 				// a buffer of constant size made for the object itself is as bounded as an array field
-				if !ok && constMakeRe.MatchString(t) {
+				if !ok && (t == "nil" || constMakeRe.MatchString(t)) {
 					ok = true
 				}
 				r.Check(ok, fs.Fn.String(), "store:"+spec.typ+"."+sl, r.pos(fs.Store), "reslice of the fixed array / of itself", "slice field "+sl+" is set to "+t+": not a view of the fixed-size buffer (unbounded growth or aliasing of caller memory)")
